@@ -132,13 +132,15 @@ ESTIMATORS = [
 ]
 
 
-def generate(repo):
+def generate(repo, only=None, listname="generated_estimators"):
+    """only: restrict to the estimators of these source files (a per-property group)"""
+    ESTS = [e for e in ESTIMATORS if only is None or e[1] in only or e[0] in only]
     out = ["(* GENERATED by translate/tr_estimators.py -- do not edit *)",
            "From Coq Require Import List String.", "From PMH Require Import Model.Estimators.",
            "Import ListNotations.", "Open Scope string_scope.", ""]
     cache = {}
     recs = {}
-    for coqname, path, fn, occ in ESTIMATORS:
+    for coqname, path, fn, occ in ESTS:
         if path not in cache:
             src = strip_comments(open(os.path.join(repo, path)).read())
             cache[path] = src.split("#[cfg(test)]\nmod tests")[0]
@@ -146,12 +148,12 @@ def generate(repo):
         if len(bodies) <= occ:
             raise Untranslatable("%s: occurrence %d of fn %s not found" % (path, occ, fn))
         recs[coqname] = (path, fn, shape(*bodies[occ]))
-    for coqname, path, fn, occ in ESTIMATORS:
+    for coqname, path, fn, occ in ESTS:
         sh = recs[coqname][2]
         if sh[0] == "alias":
             # resolve inside the same file
             target = None
-            for c2, p2, f2, o2 in ESTIMATORS:
+            for c2, p2, f2, o2 in ESTS:
                 if p2 == path and f2 == sh[1] and recs[c2][2][0] == "rec":
                     target = c2
             if target is None:
@@ -168,8 +170,8 @@ def generate(repo):
     head = [l for l in out if not l.startswith("Definition")]
     out = head + defs + als
     out.append("")
-    out.append("Definition generated_estimators : list (string * estimator) :=\n  [" +
-               ";\n   ".join('("%s", est_%s)' % (c, c) for c, _, _, _ in ESTIMATORS) + "].")
+    out.append("Definition %s : list (string * estimator) :=\n  [" % listname +
+               ";\n   ".join('("%s", est_%s)' % (c, c) for c, _, _, _ in ESTS) + "].")
     return "\n".join(out) + "\n"
 
 
